@@ -115,6 +115,7 @@ class Evaluator:
         self.inline_funcs: set[str] = set(_DEFAULT_INLINE)
         self._ovr: dict = {}
         self.opaque_funcs: set[str] = set()
+        self.opaque_methods: set[str] = set()
 
     # ------------------------------------------------------------------ entry points
     def eval_method(self, cls_name: str, meth: str, module_suffix: str | None = None, bind: dict | None = None):
@@ -401,7 +402,7 @@ class _Ctx:
         res = FuncResult(None, [], [], env)
         self.res = res
         out_env = self.block(body, env, ())
-        res.env = out_env if out_env is not None else env
+        res.env = out_env if out_env is not None else getattr(res, "env_at_return", env)
         rets = list(res.returns)
         if out_env is not None:
             rets.append(((), C(None)))  # fall-through path
@@ -421,9 +422,11 @@ class _Ctx:
 
     def stmt(self, st, env, conds):
         ev = self.ev
+        self.cur_env = env
         if isinstance(st, ast.Return):
             v = self.expr(st.value, env) if st.value is not None else C(None)
             self.res.returns.append((conds, v))
+            self.res.env_at_return = env
             return None
         if isinstance(st, ast.Raise):
             v = self.expr(st.exc, env) if st.exc is not None else C(None)
@@ -641,7 +644,9 @@ class _Ctx:
             if d:
                 head = d.split(".")[0]
                 if head not in env and self.module is not None and head in self.module.imports:
-                    return G(ev.prog.canon(self.module, d))
+                    tgt = self.module.imports[head].split(".")[-1]
+                    if tgt not in ev.prog.class_index and not (self.module.imports[head].startswith("genjax") and tgt[:1].isupper()):
+                        return G(ev.prog.canon(self.module, d))
             return mk_attr(ev, self.expr(e.value, env), e.attr)
         if isinstance(e, ast.Tuple):
             return mk_tuple(self.expr(x, env) for x in e.elts)
@@ -653,6 +658,8 @@ class _Ctx:
             return ("dict", tuple((self.expr(k, env) if k is not None else C("**"), self.expr(v, env)) for k, v in zip(e.keys, e.values)))
         if isinstance(e, ast.Starred):
             v = self.expr(e.value, env)
+            if is_t(v, "tuple") and len(v[1]) == 1 and is_t(v[1][0], "star"):
+                return v[1][0]
             return ("star", v)
         if isinstance(e, ast.BinOp):
             return ("bin", _OPS.get(type(e.op), "?"), self.expr(e.left, env), self.expr(e.right, env))
@@ -847,6 +854,14 @@ class _Ctx:
         body = [ast.Return(value=node.body)] if isinstance(node, ast.Lambda) else node.body
         res = sub.run_body(body, env)
         ev.calls_inlined += 1
+        # side effects on the shared `self` object (handler state) and recorded effect calls flow back to the caller
+        cur = getattr(self, "cur_env", None)
+        if cur is not None and env.get("self") is not None and env.get("self") == cur.get("self", P("self") if self.cls is not None else None):
+            for k, v in res.env.items():
+                if k.startswith("self.") and clo.env.get(k) != v:
+                    cur[k] = v
+            if res.env.get("__effects__"):
+                cur["__effects__"] = cur.get("__effects__", []) + [e for e in res.env["__effects__"] if e not in cur.get("__effects__", [])]
         # propagate raise / assert facts upward (rules sometimes need them)
         if hasattr(self, "res"):
             self.res.asserts.extend(res.asserts)
@@ -925,7 +940,7 @@ class _Ctx:
         ev = self.ev
         obj, name = f[1], f[2]
         # self.method(...) -> inline same-class / inherited helper
-        if obj == P("self") and self.cls is not None:
+        if obj == P("self") and self.cls is not None and name not in ev.opaque_methods:
             hit = ev.prog.find_method(self.cls, name)
             if hit is not None:
                 ci, fn = hit
